@@ -67,11 +67,10 @@ func (h *pmHist) arrive(r int64, pid uint16, wantDrop bool) (bool, uint16, uint1
 			if ok != (r == ref.next) {
 				h.t.Fail("C01", "drop_only_in_order", fmt.Sprintf("Drop(%d) = %v but next expected is %d", r, ok, ref.next))
 			}
+		} else if ok {
+			h.t.Fail("C01", "drop_only_in_order", fmt.Sprintf("Drop(%d) accepted before any packet was seen", r))
 		}
 		if ok {
-			if !ref.started {
-				ref.reset(r - 1)
-			}
 			ref.d = append(ref.d, r)
 			ref.next = r + 1
 			return false, 0, 0
